@@ -108,10 +108,12 @@ PROPS = {
               'the request path (half of the runs focused on Attribute/Logix.request/dfa_post code), segmentation and latency '
               'from the tape; invoke/return stamped with global event numbers; the recorded history plus a final read-back is '
               'checked for linearizability against the array model (bundle members individually atomic, in order); '
-              'non-trivial = >= 4 requests, >= 2 on shared ranges, checker decided'),
+              'non-trivial = >= 4 requests, >= 2 on shared ranges, checker decided.  Second part "storm": every session sends '
+              'bundles at once, pre-emption confined to the deferred member parsing (terminate/closure) and a thread releasing a '
+              'shared lock is held back there in 1 of 3 releases'),
         assumptions=['linearizability search capped at 2e5 nodes; a cap hit is counted as undecided, never as pass or fail'],
-        quick=dict(parts=[dict(world='c09', count=600)]),
-        thorough=dict(parts=[dict(world='c09', count=20000)]),
+        quick=dict(parts=[dict(world='c09', count=600), dict(world='c09', count=160, params={'storm': True})]),
+        thorough=dict(parts=[dict(world='c09', count=20000), dict(world='c09', count=5000, params={'storm': True})]),
     ),
     'C08': dict(
         level='exploration',
@@ -193,10 +195,14 @@ PROPS = {
               'result equals the model for its own index, no more results than completely delivered replies, all results or an '
               'exception (never a silent short list), after a failed poll the proxy holds no gateway, after the heal a complete '
               'correct poll over a newly registered session within 120 simulated s; thorough tier sweeps every cut offset of sampled '
-              'exchanges; non-trivial = the fault fired (or none configured) and >= 1 result/poll'),
-        assumptions=['client timeouts, poll cycle and back-off run on the virtual clock'],
-        quick=dict(parts=[dict(world='c13', count=320)]),
-        thorough=dict(parts=[dict(world='c13', count=8000)], sweep=dict(world='c13', streams=16)),
+              'exchanges; non-trivial = the fault fired (or none configured) and >= 1 result/poll.  World c13s: 2..3 poll.run '
+              'threads share ONE proxy (documented deployment); replies late by 0.7..3 timeouts, lost, cut; pollers are pre-empted or '
+              'stalled (virtual time lost) at lines of proxy.__exit__/close_gateway/client.close; every value handed to a poller must '
+              'be the model value of its own parameter, and after the heal every poller completes a correct poll within 150 s'),
+        assumptions=['client timeouts, poll cycle and back-off run on the virtual clock',
+                     'c13s: a stalled thread loses 2 ms .. 2.5 s of virtual time at a line of the proxy/client release path'],
+        quick=dict(parts=[dict(world='c13', count=320), dict(world='c13s', count=160)]),
+        thorough=dict(parts=[dict(world='c13', count=8000), dict(world='c13s', count=6000)], sweep=dict(world='c13', streams=16)),
     ),
     'C14': dict(
         level='exploration',
